@@ -68,10 +68,46 @@ def special_cases():
     one('.ascii "abc" <n> "d"\n.asciz /x/ <n>\n.rad50 /abcd/ <n>\n.even\nw: .word w\nn = 5\n')
     one('.include "i.mac"\nafter: .word after\n', {"i.mac": ".blkb m\n.even\nil: .word il\nm = 3\n"})
     one('insert_file "b.bin"\n.even\nafter: .word after\n', {"b.bin": bytes(range(7))})
+    one('.include "t.mac"\n.byte 1\n.include "t.mac"\n.repeat 2 { .include "./t.mac"\n }\n.even\nafter: .word after, .\n', {"t.mac": ".even\n.word ., 125252\n.byte 5\n"})
     one("a, b\n1, 2, 3\n.even\nl: .word l\na = 1\nb = 2\n")
     one(".word\n.byte\n.even\n.dword\nl: .word l\n")
     one(".link 1000\n.word\n.byte\n.even\n.dword\nl: .word l\n")
     return S
+
+
+def multi_include_cases(rng, n):
+    """One file included several times (directly, inside .repeat, through another spelling of its path, from a second
+    included file): every copy is compiled at its own address, so position-dependent content ('.word .', alignment
+    fill) differs between the copies.  The included file defines no global label (that would be a duplicate)."""
+    out = []
+    def body():
+        ls = []
+        for _ in range(rng.randint(1, 6)):
+            ls.append(rng.choice([".word .", ".word ., 125252", ".byte %d" % rng.randint(0, 255), ".even", ".align 4", ".blkb %d" % rng.randint(1, 3),
+                                  ".word . + 2", "mov #., r0", ".byte 1\n.even", "1: br 1", ".ascii /ab/\n.even", ".word . - 2"]))
+        if rng.random() < 0.5:
+            ls.insert(0, ".even")
+        return "\n".join(ls) + "\n"
+    for i in range(n):
+        fs = {"t.mac": body()}
+        names = ["t.mac", "./t.mac"] if rng.random() < 0.5 else ["t.mac"]
+        if rng.random() < 0.3:
+            fs["u.mac"] = '.even\n.word .\n.include "t.mac"\n.byte 7\n.include "t.mac"\n'
+            names.append("u.mac")
+        main = []
+        if rng.random() < 0.5:
+            main.append(rng.choice([".link 4000", ". = 177000", ".link 1001", ".link 2000"]))
+        for _ in range(rng.randint(2, 5)):
+            inc = '.include "%s"' % rng.choice(names)
+            k = rng.random()
+            if k < 0.3:
+                main.append(".repeat %d { %s\n }" % (rng.randint(2, 3), inc))
+            else:
+                main.append(inc)
+            main.append(rng.choice([".byte 3", ".word 1", ".even", ".blkb 3", "nop", ".byte 1, 2, 3"]))
+        main.append(".even\nlast: .word last, .")
+        out.append(("multi-include", [("m.mac", "\n".join(main) + "\n")], fs, {}))
+    return out
 
 
 def probe_cases(rng, n):
@@ -122,7 +158,8 @@ def py_block_ok(b):
 def explore(rep, br, tier, seed):
     rng = random.Random(seed)
     n = 320 if tier == "quick" else 6000
-    cases = special_cases() + gen_cases(rng, n) + probe_cases(rng, 60 if tier == "quick" else 600)
+    cases = (special_cases() + gen_cases(rng, n) + multi_include_cases(rng, 40 if tier == "quick" else 600)
+             + probe_cases(rng, 60 if tier == "quick" else 600))
     for path in CORPUS:
         with open(path, encoding="utf-8") as f:
             cases.append(("corpus", [(path, f.read())], None, {}))
@@ -139,7 +176,7 @@ def explore(rep, br, tier, seed):
             rep.disagree("harness error while running the implementation", {"files": files}, impl=o.get("error"))
             continue
         if o["outcome"] != "ok":
-            if origin not in ("gen", "probe"):
+            if origin not in ("gen", "probe", "multi-include"):
                 rep.violate(f"not-ok:{origin}:{files[0][0]}", "a corpus/special program no longer assembles", {"files": files},
                             impl={k: o.get(k) for k in ("outcome", "crash", "diags")})
             continue
@@ -180,6 +217,18 @@ def explore(rep, br, tier, seed):
                 rep.violate("placement:" + t.split()[0][:12], "the bytes found in the image at the address a statement was given are not the bytes it produced",
                             {"files": files, "fs": {k: (v if isinstance(v, str) else v.hex()) for k, v in (fs or {}).items()}}, statement=t, address=a, base=base)
                 break
+        # the value '.' evaluated to: a statement that stores '.' must hold the address it was given (model-free)
+        for b in post["blocks"]:
+            for r in b["recs"]:
+                t = " ".join(r["t"].split()).lower()
+                if t in (".word .", ".word ., 125252") and r["n"] >= 2:
+                    rep.count("dot-probe")
+                    got = int.from_bytes(bytes.fromhex(r["bytes"])[:2], "little")
+                    if got != r["a"] % 65536:
+                        rep.violate("dot-value", "'.word .' stored a value that is not the address the statement was given: '.' is not base + bytes before this point",
+                                    {"files": files, "fs": {k: (v if isinstance(v, str) else v.hex()) for k, v in (fs or {}).items()}},
+                                    statement=r["t"], address=r["a"], stored=got, block={"file": b["file"], "context": b["context"]})
+                        break
         # tiling: leaf statements of all blocks cover the image exactly once
         PARENTS = ("insn:.repeat", "insn:repeat", "insn:.include", "insn:include")
         if not any(b["own_base"] for b in post["blocks"]):
